@@ -10,7 +10,7 @@ import (
 
 	"gonum.org/v1/gonum/stat/card"
 
-	"verif/harness/internal/core"
+	"gonum.org/v1/gonum/verifharness/internal/core"
 )
 
 func init() {
